@@ -12,6 +12,7 @@ from .. import docmodel
 from ..channels import draw_read_channel, read_via, write_via
 from ..core import Prop, Result
 from ..simfs import SimFS, Policy
+from ..swarm import neutral_read_kw, neutral_write_kw, fix_kw
 
 NULLS = {
     "-999.25": ["-999.25", "-999.2500", "-9.9925E2", "-9.9925e+02", "-0999.25"],
@@ -81,7 +82,7 @@ class C06(Prop):
             rows.append(row)
         return {"null_key": nk, "null_spelling": g.choice(NULLS[nk]), "rows": rows, "textcol": textcol,
                 "wrap": g.random() < 0.2 and nc >= 3, "policy_null": g.choice(["strict", "strict", "none"]),
-                "engine": g.choice(["numpy", "normal"]), "vers": g.choice([1.2, 2.0]), "case": g.choice(["upper", "upper", "lower", "preserve"]),
+                "nkw": neutral_read_kw(g, exclude=("null_policy",)), "engine": g.choice(["numpy", "normal"]), "vers": g.choice([1.2, 2.0]), "case": g.choice(["upper", "upper", "lower", "preserve"]),
                 "channel": draw_read_channel(g, ascii_only=True), "policy": Policy.draw(st.io).to_json(),
                 "wkw": g.choice([{}, {}, {"version": 1.2}, {"wrap": True}, {"version": 2.0, "wrap": False}, {"fmt": "%.4f"}]),
                 "out": g.choice(["path", "stream", "stringio"])}
@@ -109,8 +110,8 @@ class C06(Prop):
         fs = SimFS(policy=Policy.from_json(sc["policy"]))
         with fs:
             try:
-                las = read_via(fs, text, sc["channel"], {"engine": sc["engine"], "null_policy": sc["policy_null"],
-                                                        "mnemonic_case": sc.get("case", "upper")}, tag="c06")
+                las = read_via(fs, text, sc["channel"], fix_kw(dict(sc.get("nkw") or {}, engine=sc["engine"], null_policy=sc["policy_null"],
+                                                             mnemonic_case=sc.get("case", "upper"))), tag="c06")
             except Exception as e:
                 res.violate("C06.unreadable", "document could not be read: %s: %s" % (type(e).__name__, str(e).strip().splitlines()[-1][:200] if str(e).strip() else ""))
                 return res
